@@ -21,8 +21,9 @@ func init() {
 			"oracle: the history engine's answer must equal the answer of a fresh engine built with NewPolicyEngineWithObjects from the objects current at that moment (the reference model is consulted too: where fresh engine and model disagree the query is not judged here); the engine's own cache-hit counter, read around every query, says which answers came out of the cache; " +
 			"non-trivial = at least one answer after an update came from the cache and at least one answer changed over the history; distinct = hash of the operation sequence",
 		Assumptions:       []string{"current objects = the objects of the successful calls so far (model state kept by the harness)", "a NetworkPolicy is updated by delete + insert (InsertObject rejects an existing name)"},
-		NumCases:          func(tier string, _ int64) int { return tierN(tier, 600, 40000) },
+		NumCases:          func(tier string, _ int64) int { return tierN(tier, 600, 12000) },
 		Run:               runC15,
+		RaceSliceCases:    1500,
 		MinNonTrivial:     200,
 		MinEffectiveShare: 0.5,
 		RequiredEvents: map[string]int64{"steps": 5000, "queries": 200000, "cache_hits_after_update": 5000, "answers_changed_by_a_step": 1000, "deletes_of_absent_objects": 300,
